@@ -105,7 +105,8 @@ O5 == O4 + NBig
 O6 == O5 + NLen
 O7 == O6 + NBytes
 O8 == O7 + NUint
-Count == O8 + NList
+O9 == O8 + NList
+Count == O9 + NAlWords
 ItemAt(g) ==
   IF g <= O1 THEN DataLenAt(g)
   ELSE IF g <= O2 THEN ByteValAt(g - O1)
@@ -115,7 +116,8 @@ ItemAt(g) ==
   ELSE IF g <= O6 THEN LenAt(g - O5)
   ELSE IF g <= O7 THEN BytesAt(g - O6)
   ELSE IF g <= O8 THEN UintAt(g - O7)
-  ELSE ListAt(g - O8)
+  ELSE IF g <= O9 THEN ListAt(g - O8)
+  ELSE AlWordAt(g - O9)
 VARIABLE n
 INSTANCE GenBase
 =============================================================================
